@@ -252,6 +252,21 @@ def search(ctx, boost=1, focus=()):
                  "peaks": peaks.tolist(), "upsample": [None, 5, None, 20][(rep + DTYPES.index(name)) % 4] if name != "uint16" else 5}
             ctx.oracle_case("dtype", p, run_case("dtype", p), nontrivial=True)
             ctx.count("oracle_many_peaks")
+    _large_crop_cases(ctx, rng, boost)
+
+
+def _large_crop_cases(ctx, rng, boost):
+    """a search window so large that ONE float64 crop exceeds the library's default buffer limit while one float32 crop does not
+    (crop sizes 129 .. 181): every dtype is still accepted and gives the float64 result"""
+    for k in range(2 * boost):
+        cs = int(rng.integers(130, 181))
+        pat = {"kind": "circular", "radius": float(rng.integers(5, 12)), "search": float(cs)}
+        shape = [int(rng.integers(30, 60)), int(rng.integers(30, 60))]
+        peaks = [[int(rng.integers(5, shape[0] - 5)), int(rng.integers(5, shape[1] - 5))]]
+        name = ("uint16", "int32", "uint8", "uint32", "int64", "float32")[(k + ctx.seed) % 6]
+        p = {"seed": int(rng.integers(1 << 30)), "dtype": name, "spread": "narrow", "pattern": pat, "shape": shape, "peaks": peaks}
+        ctx.oracle_case("dtype", p, run_case("dtype", p), nontrivial=True)
+        ctx.count("oracle_large_crop")
 
 
 def extra_coverage(ctx):
